@@ -72,6 +72,7 @@ type jobctlWorld struct {
 	lateFinish     bool                 // a pod that is being deleted often still runs to completion before it goes away
 	kubeletDead    bool                 // the kubelet never finishes terminating a deleted pod (node unreachable)
 	forceKind      *int                 // scenarios: the next kubelet termination is of this kind (0 = Succeeded, 2 = Failed)
+	keepMonitors   bool                 // scenarios replaying a known finding that lies outside E-OrphanVisible / E-NoUnrecordedWhenFinished (F25): the envelope is still counted, but the monitors stay on
 }
 
 func (w *jobctlWorld) now() int64 { return w.clk.Now().UnixNano() }
@@ -660,7 +661,7 @@ func (w *jobctlWorld) checkEnvelope() {
 				if !w.envelopeBroken {
 					w.c.Count("jc.envelope.unrecorded-when-finished")
 				}
-				w.envelopeBroken = true
+				w.envelopeBroken = !w.keepMonitors
 			}
 		}
 	}
@@ -676,7 +677,7 @@ func (w *jobctlWorld) checkEnvelope() {
 			if !w.envelopeBroken {
 				w.c.Count("jc.envelope.orphan-invisible")
 			}
-			w.envelopeBroken = true
+			w.envelopeBroken = !w.keepMonitors
 		}
 	}
 }
